@@ -410,15 +410,54 @@ func rulesC06(c *Ctx) {
 					}
 				}
 			}
-			if val != nil {
+			{
 				valDep := false
+				if val != nil {
+					eachInstr(rngFn, func(_ *ssa.BasicBlock, _ int, in ssa.Instruction) {
+						if iff, ok := in.(*ssa.If); ok && pureDep(iff.Cond, val, 0) {
+							valDep = true
+						}
+					})
+				}
+				// ... nor on what another journal holds: entries are never retracted, so "also in the write
+				// journal" says nothing about which operation came last
 				eachInstr(rngFn, func(_ *ssa.BasicBlock, _ int, in ssa.Instruction) {
-					if iff, ok := in.(*ssa.If); ok && pureDep(iff.Cond, val, 0) {
-						valDep = true
+					iff, ok := in.(*ssa.If)
+					if !ok {
+						return
+					}
+					var lk *ssa.Lookup
+					var find func(v ssa.Value, d int)
+					find = func(v ssa.Value, d int) {
+						if v == nil || d > 6 || lk != nil {
+							return
+						}
+						switch x := v.(type) {
+						case *ssa.Lookup:
+							lk = x
+						case *ssa.Extract:
+							find(x.Tuple, d+1)
+						case *ssa.UnOp:
+							find(x.X, d+1)
+						case *ssa.BinOp:
+							find(x.X, d+1)
+							find(x.Y, d+1)
+						}
+					}
+					find(iff.Cond, 0)
+					if lk == nil || key == nil || !(resolve(lk.Index) == key || sameValue(resolve(lk.Index), key)) {
+						return
+					}
+					if n, _ := fieldLoadName(lk.X); n != "" && n != jn {
+						for _, j2 := range roles.journals {
+							if j2 == n {
+								valDep = true
+							}
+						}
 					}
 				})
 				if valDep {
-					c.Bad("R2", con, rng.Pos(), "the replay loop over journal "+jn+" branches on the value stored with the entry (a per-entry flag): an entry an earlier Commit has marked is skipped although a later Remove/RemoveAll replay makes it necessary again — the committed tree differs from the buffered view")
+					c.Bad("R2", con, rng.Pos(), "the replay loop over journal "+jn+" branches on the value stored with the entry (a per-entry flag) or on what another journal holds for the same path: an entry is skipped although it is necessary (journal entries are never retracted and carry no order) — the committed tree differs from the buffered view")
 					continue
 				}
 			}
